@@ -196,9 +196,10 @@ pub fn run(ctx: &Ctx) -> Report {
     let step = ctx.tier.pick(3, 1);
     let mut all = crate::sqlgen::queries_plus_depth(ctx.tier, ctx.tier.pick(1, 3));
     if ctx.tier == Tier::Quick {
+        // plus the set operations whose arms reach their aggregation at different depths, and
         // plus the inner joins of a depth-2 join with a base table (either side): nested joins are where a
         // sub-tree has several derivations with the same output label and different scores
-        all.extend(crate::sqlgen::composed(3).into_iter().filter(|g| g.term.as_ref().map_or(false, |t| t.starts_with("J.inner.eq.s1(") && t.contains("(J.") || t.starts_with("J.inner.eq.s1(") && t.contains(", J."))));
+        all.extend(crate::sqlgen::composed(3).into_iter().filter(|g| g.term.as_ref().map_or(false, |t| t.starts_with("J.inner.eq.s1(") && t.contains("(J.") || t.starts_with("J.inner.eq.s1(") && t.contains(", J.") || t.starts_with("S.") && t.contains("P1c("))));
     }
     // quick: every third hand-written query and every composed term of depth 1; thorough: everything (depth 3)
     for (i, g) in all.into_iter().enumerate() {
